@@ -197,16 +197,25 @@ def build_mt(config="tsan"):
 
 
 def build_examples(config="asan"):
-    """The repository's own example programs linked against the interposed library, main renamed (src/exdrv.c)."""
+    """The repository's own example programs linked against the interposed library, main renamed (src/exdrv.c).
+    Keys of the result: the C examples by name, the reproc++ examples as "xx_<name>" (src/exshim.cpp)."""
     cfg = CONFIGS[config]
     bdir = os.path.join(BUILD, config)
     lib = build_lib(config)
     exdir = os.path.join(REPO, "reproc", "examples")
+    xxdir = os.path.join(REPO, "reproc++", "examples")
     names = [n for n in ("drain", "env", "parent", "path", "poll", "read", "run") if os.path.exists(os.path.join(exdir, n + ".c"))]
+    xnames = [n for n in ("drain", "run", "forward", "background") if os.path.exists(os.path.join(xxdir, n + ".cpp"))]
     drv = os.path.join(SRC, "exdrv.c")
-    digest = _hash([os.path.join(exdir, n + ".c") for n in names] + [drv, lib, os.path.join(bdir, "wrap.o")], " ".join(cfg["cflags"]))
+    shim = os.path.join(SRC, "exshim.cpp")
+    cpp = os.path.join(REPO, "reproc++/src/reproc.cpp")
+    hpp = sorted(glob.glob(os.path.join(REPO, "reproc++/include/reproc++/*.hpp")) +
+                 glob.glob(os.path.join(REPO, "reproc++/include/reproc++/detail/*.hpp")))
+    digest = _hash([os.path.join(exdir, n + ".c") for n in names] + [os.path.join(xxdir, n + ".cpp") for n in xnames] +
+                   [drv, shim, cpp, lib, os.path.join(bdir, "wrap.o")] + hpp, " ".join(cfg["cflags"]))
     stamp = os.path.join(bdir, "examples.stamp")
     outs = {n: os.path.join(bdir, "ex_" + n) for n in names}
+    outs.update({"xx_" + n: os.path.join(bdir, "exxx_" + n) for n in xnames})
     if all(os.path.exists(o) for o in outs.values()) and _stamp_ok(stamp, digest):
         return outs
     drv_o = os.path.join(bdir, "exdrv.o")
@@ -217,6 +226,23 @@ def build_examples(config="asan"):
             LIB_INC + ["-c", os.path.join(exdir, n + ".c"), "-o", o])
         run([cfg["cc"]] + cfg["ldflags"] + [drv_o, o, os.path.join(bdir, "wrap.o"), lib, "-o", outs[n] + ".tmp", "-lpthread"])
         os.replace(outs[n] + ".tmp", outs[n])
+    if xnames:
+        try:
+            inc = LIB_INC + ["-I" + os.path.join(REPO, "reproc++/include")]
+            cpp_o = os.path.join(bdir, "exxx_reproc_cpp.o")
+            run(["g++", "-std=c++11", "-w"] + cfg["cflags"] + inc + ["-c", cpp, "-o", cpp_o])
+            shim_o = os.path.join(bdir, "exshim.o")
+            run(["g++", "-std=c++11"] + cfg["cflags"] + ["-c", shim, "-o", shim_o])
+            for n in xnames:
+                o = os.path.join(bdir, "exxx_%s.o" % n)
+                run(["g++", "-std=c++11", "-w", "-Dmain=example_main_cxx"] + cfg["cflags"] + inc + ["-c", os.path.join(xxdir, n + ".cpp"), "-o", o])
+                run(["g++"] + cfg["ldflags"] + [drv_o, shim_o, o, cpp_o, os.path.join(bdir, "wrap.o"), lib, "-o", outs["xx_" + n] + ".tmp", "-lpthread"])
+                os.replace(outs["xx_" + n] + ".tmp", outs["xx_" + n])
+        except Inconclusive:
+            # the C++ wrapper is a separate component: if it does not build on the tree under check, the C examples still run
+            for n in xnames:
+                outs.pop("xx_" + n, None)
+            return outs
     open(stamp, "w").write(digest)
     return outs
 
